@@ -65,7 +65,7 @@ pub fn make_entry(rs: &[RelExp], origin: &str) -> Result<Entry, String> {
 fn styled_rel(r: &RelExp, generous: bool) -> String {
     let (pre, inn) = if generous { (" ", " ") } else { ("", "") };
     let mut s = r.name.clone();
-    if let Some(a) = &r.aq { s.push(':'); s.push_str(a); }
+    if let Some(a) = &r.aq { s.push_str(pre); s.push(':'); s.push_str(a); }   // (generous: a blank in front of the qualifier's colon - both readers skip it)
     if let Some((op, v)) = &r.version { s.push_str(&format!("{}({}{} {})", pre, inn, op, v)); }
     if let Some(a) = &r.archs { s.push_str(&format!("{}[{}{}{}]", pre, inn, a.join(" "), inn)); }
     for g in &r.profs {
